@@ -60,3 +60,84 @@ def oracle_segs(line, out):
             if acc <= max(0, sc - bs):
                 break
     return None
+
+
+# ------------------------------------------------------------------ C12
+def parse_items(out):
+    items = []
+    if not out:
+        return items
+    for t in out.split(","):
+        f = t.split(":")
+        if f[0] == "P":
+            items.append(("P", int(f[1]), int(f[2]), int(f[3]), int(f[4]), int(f[5])))
+        elif f[0] == "R":
+            items.append(("R", int(f[1]), int(f[2])))
+        else:
+            items.append(("Q", int(f[1]), int(f[2]), int(f[3])))
+    return items
+
+
+def map_of(s):
+    a, b, c, d = s.split(":")
+    return int(a), int(b), int(c), ints(d)
+
+
+def labels_of(m, rev):
+    """independent re-statement of the label numbering: site k <-> k-th label from the left;
+    '-' strand coordinates are mirrored about length-1"""
+    mid, length, shift, pos = m
+    n = len(pos)
+    if not rev:
+        return [(i + 1 + shift, p) for i, p in enumerate(pos)]
+    return [(n - i + shift, length - 1 - p) for i, p in enumerate(reversed(pos))]
+
+
+def oracle_pair(line, out):
+    op, kv = kv_of(line)
+    if out.startswith("ERR"):
+        return f"exception {out}"
+    md, start, stop, rev = int(kv["md"]), int(kv["start"]), int(kv["stop"]), kv["rev"] == "1"
+    ref, qry = map_of(kv["REF"]), map_of(kv["QRY"])
+    rl = [l for l in labels_of(ref, False) if start - md <= l[1] <= stop + md]
+    ql = labels_of(qry, rev)
+    items = parse_items(out)
+    # ascending position order
+    absp = [(it[2] if it[0] in "PR" else it[2] + it[3]) for it in items]
+    if any(a > b for a, b in zip(absp, absp[1:])):
+        return "not in ascending position order"
+    for it in items:
+        if it[0] == "Q" and it[3] != start:
+            return "unpaired query position carries a wrong seed offset"
+    rs = sorted([(it[1], it[2]) for it in items if it[0] in "PR"])
+    qs = sorted([(it[3], it[4]) for it in items if it[0] == "P"] + [(it[1], it[2]) for it in items if it[0] == "Q"])
+    if rs != sorted(rl):
+        return f"reference labels of the window not returned exactly once: {rs} vs {sorted(rl)}"
+    if qs != sorted(ql):
+        return f"query labels not returned exactly once: {qs} vs {sorted(ql)}"
+    pairs = [it for it in items if it[0] == "P"]
+    for p in pairs:
+        if p[5] != p[4] - (p[2] - start):
+            return f"offset of pair {p} is not q - (r - start)"
+        if abs(p[5]) > md:
+            return f"pair {p} beyond maxDistance"
+    if len({p[1] for p in pairs}) != len(pairs) or len({p[3] for p in pairs}) != len(pairs):
+        return "pairs are not one-to-one"
+    for a in pairs:
+        for b in pairs:
+            if a[2] < b[2] and a[4] > b[4]:
+                return f"pairs cross: {a} {b}"
+            if a[2] < b[2] and not ((b[3] < a[3]) if rev else (a[3] < b[3])):
+                return f"query label numbers not monotone: {a} {b}"
+    # mutual strict nearest neighbours within md must be paired
+    paired = {(p[1], p[3]) for p in pairs}
+    for r in rl:
+        for q in ql:
+            d = abs(q[1] - (r[1] - start))
+            if d > md:
+                continue
+            if all(abs(q[1] - (r2[1] - start)) > d for r2 in rl if r2 != r) and \
+               all(abs(q2[1] - (r[1] - start)) > d for q2 in ql if q2 != q):
+                if (r[0], q[0]) not in paired:
+                    return f"mutual nearest labels r{r} q{q} not paired"
+    return None
